@@ -7,3 +7,7 @@ pub assume_specification<T, P: FnOnce(&T) -> bool> [Option::<T>::filter] (o: Opt
 // mem::replace: moves `src` in and the old value out
 pub assume_specification<T> [core::mem::replace::<T>] (dest: &mut T, src: T) -> (r: T)
     ensures r == *old(dest), *final(dest) == src;
+// rule D12: the text of an error message (`format!(..)`) is a String no contract speaks about
+#[verifier::external_body]
+pub fn verif_format() -> (r: String)
+{ unimplemented!() }
